@@ -69,7 +69,7 @@ def _validate_parallel(c, events, max_events, par):
     rejects = 0
     for (p, cfg, ch), r in zip(jobs, res):
         # a trace = one real execution: a small scenario (constructor + all lookups) or one shipped lookup
-        c.add_trace_result(r, ch, key_fn, what_fn, n_traces=sum(1 for e in ch if e['ev'] != 'wl'), sample_n=0)
+        c.add_trace_result(r, ch, key_fn, what_fn, n_traces=sum(1 for e in ch if e['ev'] != 'wl') - len(r['notes']), sample_n=0)
         rejects += len(r['rejects'])
     return rejects
 
